@@ -57,6 +57,8 @@ pub open spec fn parse_msg(b: Seq<u8>) -> Option<MsgSpec> {
 // Datagrams on which RFC 7252 lets a parser be stricter than this one is today
 // (C03: three-valued verdict): version != 1, a marker with nothing after it,
 // anything after the 4-byte header of a 0.00 Empty message.
+// a payload marker with nothing after it (the one lenient shape the encoder never produces)
+pub open spec fn lone_marker(b: Seq<u8>) -> bool { b.len() >= 4 && tail_of(b, 4 + (b[0] as int) % 16).len() == 1 }
 pub open spec fn lenient(b: Seq<u8>) -> bool {
     b.len() >= 4 && (
         (b[0] as int) / 64 != 1
